@@ -51,7 +51,8 @@ TABLE = {
             ('OpyVerif.Generated.Constants', 'Opy.Gen', r'nArgs_|epsilon_pos')],
     'C11': [('OpyVerif.Proofs.C11', 'Opy.PNode', None), ('OpyVerif.Proofs.NodeWalk', 'Opy', None),
             ('OpyVerif.Proofs.WalkCode', 'Opy', None), ('OpyVerif.Generated.Walks', 'Opy.Gen', None),
-            ('OpyVerif.Proofs.FindProg', 'Opy', None), ('OpyVerif.Proofs.FindCode', 'Opy', None), ('OpyVerif.Generated.Find', 'Opy.Gen', None)],
+            ('OpyVerif.Proofs.FindProg', 'Opy', None), ('OpyVerif.Proofs.FindCode', 'Opy', None), ('OpyVerif.Generated.Find', 'Opy.Gen', None),
+            ('OpyVerif.Proofs.BfsProg', 'Opy', None), ('OpyVerif.Proofs.PropsCode', 'Opy', None), ('OpyVerif.Generated.Props', 'Opy.Gen', None)],
     'C12': [('OpyVerif.Proofs.C12', 'Opy', None),
             ('OpyVerif.Proofs.SweepCode', 'Opy', r'code_gpSweep'), ('OpyVerif.Proofs.SweepProg', 'Opy', r'gpSweep'),
             ('OpyVerif.Generated.Sweeps', 'Opy.Gen', r'gpSweep_eq|sweepOwners_eq'),
